@@ -3,6 +3,7 @@ package main
 import (
 	"fmt"
 	"go/types"
+	"strings"
 
 	"golang.org/x/tools/go/ssa"
 )
@@ -497,4 +498,133 @@ func runFieldCoverage(p *Program, r *RuleResult) {
 			}
 		}
 	}
+}
+
+// R-DIAG-STRINGS (C08, C15): only the printed form that is proven unambiguous (String, see
+// R-PRINT-GRAMMAR) may take part in deciding anything; the other printers are diagnostics.
+func init() {
+	register(&Rule{Name: "R-DIAG-STRINGS", Min: 10,
+		Doc: "the result of every string-valued method of SessionType other than String (the printers with modality decorations, which are not a parseable syntax and are not proven injective) flows only into other printers, error messages and logs; it is never compared, used as a map key or returned as a verdict",
+		Run: runDiagStrings})
+}
+
+func runDiagStrings(p *Program, r *RuleResult) {
+	st := p.Named(typesPkg, "SessionType")
+	it := st.Underlying().(*types.Interface)
+	diag := map[string]bool{}
+	for i := 0; i < it.NumMethods(); i++ {
+		m := it.Method(i)
+		sig := m.Type().(*types.Signature)
+		if sig.Params().Len() == 0 && sig.Results().Len() == 1 {
+			if b, ok := sig.Results().At(0).Type().Underlying().(*types.Basic); ok && b.Kind() == types.String && m.Name() != "String" {
+				diag[m.Name()] = true
+			}
+		}
+	}
+	if len(diag) == 0 {
+		r.add("types.SessionType", "diagnostic-printers", Undecided, "", "no decorated printer methods found")
+		return
+	}
+	var badUse func(v ssa.Value, depth int, inPrinter bool) string
+	badUse = func(v ssa.Value, depth int, inPrinter bool) string {
+		if depth > 10 {
+			return "flow too deep to follow"
+		}
+		refs := v.Referrers()
+		if refs == nil {
+			return ""
+		}
+		for _, u := range *refs {
+			switch x := u.(type) {
+			case *ssa.DebugRef:
+			case *ssa.BinOp:
+				if x.Op.String() == "+" {
+					if w := badUse(x, depth+1, inPrinter); w != "" {
+						return w
+					}
+					continue
+				}
+				return fmt.Sprintf("it is compared (%s) at %s", x.Op, p.instrPos(x))
+			case *ssa.Lookup:
+				if x.Index == v {
+					return "it is used as a map key at " + p.instrPos(x)
+				}
+			case *ssa.MapUpdate:
+				if x.Key == v {
+					return "it is used as a map key at " + p.instrPos(x)
+				}
+			case *ssa.MakeInterface, *ssa.Slice, *ssa.Phi:
+				if w := badUse(x.(ssa.Value), depth+1, inPrinter); w != "" {
+					return w
+				}
+			case *ssa.Store:
+				if x.Val == v {
+					if ia, ok := x.Addr.(*ssa.IndexAddr); ok {
+						if al, ok := ia.X.(*ssa.Alloc); ok {
+							if w := badUse(al, depth+1, inPrinter); w != "" {
+								return w
+							}
+							continue
+						}
+					}
+					return "it is stored at " + p.instrPos(x)
+				}
+			case *ssa.IndexAddr:
+			case *ssa.Return:
+				if !inPrinter {
+					return "it is returned from a function that is not a printer at " + p.instrPos(x)
+				}
+			case ssa.CallInstruction:
+				sc := x.Common().StaticCallee()
+				switch {
+				case sc == nil:
+					return "it is passed to a dynamic call at " + p.instrPos(u)
+				case isLogSink(sc), sc.String() == "fmt.Errorf", sc.String() == "fmt.Sprintf", sc.Name() == "TypeErrorf":
+					// error text / log
+				case sc.Name() == "WriteString" && isBufferType(x.Common().Args[0].Type()):
+					if !inPrinter {
+						// a buffer in a non-printer: follow the buffer's String()
+						if w := badUse(x.Common().Args[0], depth+1, inPrinter); w != "" {
+							return w
+						}
+					}
+				case sc.Name() == "String" && len(x.Common().Args) == 1 && isBufferType(x.Common().Args[0].Type()):
+					if val, ok := u.(ssa.Value); ok {
+						if w := badUse(val, depth+1, inPrinter); w != "" {
+							return w
+						}
+					}
+				default:
+					return fmt.Sprintf("it is passed to %s at %s", sc.Name(), p.instrPos(u))
+				}
+			}
+		}
+		return ""
+	}
+	n := 0
+	for _, fn := range p.SrcFuncs {
+		root := rootMethod(fn)
+		inPrinter := root.Signature.Recv() != nil && (diag[root.Name()] || strings.HasPrefix(root.Name(), "String")) || strings.HasPrefix(strings.ToLower(root.Name()), "stringify")
+		ord := 0
+		for _, c := range p.callsIn(fn) {
+			com := c.Common()
+			if !com.IsInvoke() || !diag[com.Method.Name()] || !isSessionTypeType(com.Value.Type()) {
+				continue
+			}
+			val, ok := c.(ssa.Value)
+			if !ok {
+				continue
+			}
+			n++
+			ord++
+			construct := fmt.Sprintf("%s-result#%d", com.Method.Name(), ord)
+			if w := badUse(val, 0, inPrinter); w != "" {
+				r.add(fnName(fn), construct, Violated, p.instrPos(c),
+					fmt.Sprintf("the %s form of a type takes part in a decision: %s. That printer is a diagnostic (it does not bracket nested operands and is not a syntax the parser reads), so different types can print identically", com.Method.Name(), w))
+			} else {
+				r.add(fnName(fn), construct, Holds, p.instrPos(c), "")
+			}
+		}
+	}
+	r.count("decorated-printer call sites", n)
 }
